@@ -251,6 +251,10 @@ def gen_case(rng, i, tier):
     if r < 0.08:
         broken = 'dangling'
         bad = list(tpath[:-1]) + ['nosuchkey']
+        if not isinstance(target, dict) and rng.random() < 0.5:
+            # the path continues below a scalar or a list: there is nothing to address there
+            bad = list(tpath) + [rng.choice(['x', 'a', '0'])]
+            broken = 'dangling-below-leaf'
         ref = make_ref(rng, bad, docs[td]['name'], cross, labels) if form.startswith(('map', 'list')) else path_text(bad)
     elif r < 0.14 and cross:
         broken = 'no-doc'
